@@ -1,10 +1,13 @@
-(* C08 — eval_entry round trip on the scalar literals for which it is proved for all values:
-   booleans and bare words.  (Integers/decimals and sequences are covered by correspondence only.) *)
+(* C08 — eval_entry round trip on the scalar literals, for ALL values: integers, decimals written mantissa-e-exponent,
+   booleans, None and bare words. (Quoted strings, lists and tuples are covered by correspondence.) *)
+From Coq Require Import Decimal DecimalString DecimalPos DecimalFacts.
 From Coq Require Import ZArith List Bool String Ascii Lia.
 From PyxelV Require Import Model.Keys.
 Import ListNotations.
 Open Scope string_scope.
 Open Scope list_scope.
+
+(* ------------------------------------------------------------------------------------ characters *)
 
 Lemma alpha_neq c q : is_alpha c = true -> is_alpha q = false -> aeq c q = false.
 Proof.
@@ -18,31 +21,58 @@ Proof. destruct c as [[] [] [] [] [] [] [] []]; vm_compute; congruence. Qed.
 Lemma alpha_not_space c : is_alpha c = true -> is_space c = false.
 Proof. destruct c as [[] [] [] [] [] [] [] []]; vm_compute; congruence. Qed.
 
+Lemma digit_not_space c : is_digit c = true -> is_space c = false.
+Proof. destruct c as [[] [] [] [] [] [] [] []]; vm_compute; congruence. Qed.
+
+Lemma digit_neq c q : is_digit c = true -> is_digit q = false -> aeq c q = false.
+Proof.
+  intros Hc Hq. unfold aeq. destruct (Ascii.eqb c q) eqn:E; auto.
+  apply Ascii.eqb_eq in E. subst. congruence.
+Qed.
+
+(* ------------------------------------------------------------------------------------ trimming *)
+
+Definition nonspace (l : lstr) : bool := forallb (fun c => negb (is_space c)) l.
+
+Lemma ltrim_nonspace l : nonspace l = true -> ltrim l = l.
+Proof.
+  destruct l as [|c r]; simpl; auto. intros H. apply andb_true_iff in H. destruct H as [Hc _].
+  apply negb_true_iff in Hc. rewrite Hc. reflexivity.
+Qed.
+
+Lemma nonspace_rev l : nonspace l = true -> nonspace (rev l) = true.
+Proof.
+  unfold nonspace. rewrite !forallb_forall. intros H x Hx. apply H. apply in_rev. exact Hx.
+Qed.
+
+Lemma trim_nonspace l : nonspace l = true -> trim l = l.
+Proof.
+  intros H. unfold trim, rtrim. rewrite (ltrim_nonspace l H).
+  rewrite (ltrim_nonspace (rev l) (nonspace_rev l H)). apply rev_involutive.
+Qed.
+
+Lemma nonspace_app a b : nonspace a = true -> nonspace b = true -> nonspace (a ++ b) = true.
+Proof. unfold nonspace. rewrite forallb_app. intros -> ->. reflexivity. Qed.
+
+Lemma all_digits_nonspace l : all_digits l = true -> nonspace l = true.
+Proof.
+  induction l as [|c r IH]; simpl; auto. intros H. apply andb_true_iff in H. destruct H as [Hc Hr].
+  rewrite (digit_not_space c Hc). simpl. auto.
+Qed.
+
+Lemma all_alpha_nonspace l : all_alpha l = true -> nonspace l = true.
+Proof.
+  induction l as [|c r IH]; simpl; auto. intros H. apply andb_true_iff in H. destruct H as [Hc Hr].
+  rewrite (alpha_not_space c Hc). simpl. auto.
+Qed.
+
+(* ------------------------------------------------------------------------------------ bare words *)
+
 Lemma all_alpha_no_char q l : is_alpha q = false -> all_alpha l = true -> no_char q l = true.
 Proof.
   intros Hq. induction l as [|c r IH]; simpl; auto.
   intros H. apply andb_true_iff in H. destruct H as [Hc Hr].
   rewrite (alpha_neq c q Hc Hq). simpl. auto.
-Qed.
-
-Lemma all_alpha_rev l : all_alpha l = true -> all_alpha (rev l) = true.
-Proof.
-  induction l as [|c r IH]; simpl; auto. intros H. apply andb_true_iff in H. destruct H as [Hc Hr].
-  assert (A : forall a b, all_alpha a = true -> all_alpha b = true -> all_alpha (a ++ b) = true).
-  { induction a; simpl; auto. intros b H1 H2. apply andb_true_iff in H1. destruct H1. apply andb_true_iff. auto. }
-  apply A; auto. simpl. rewrite Hc. reflexivity.
-Qed.
-
-Lemma ltrim_alpha l : all_alpha l = true -> ltrim l = l.
-Proof.
-  destruct l as [|c r]; simpl; auto. intros H. apply andb_true_iff in H. destruct H as [Hc _].
-  rewrite (alpha_not_space c Hc). reflexivity.
-Qed.
-
-Lemma trim_alpha l : all_alpha l = true -> trim l = l.
-Proof.
-  intros H. unfold trim, rtrim. rewrite (ltrim_alpha l H).
-  rewrite (ltrim_alpha (rev l) (all_alpha_rev l H)). apply rev_involutive.
 Qed.
 
 Lemma parse_lit_word fuel s :
@@ -54,7 +84,7 @@ Proof.
   remember (list_ascii_of_string s) as l eqn:El.
   assert (Hs : string_of_list_ascii l = s) by (subst l; apply string_of_list_ascii_of_string).
   destruct l as [|c r]; [discriminate|].
-  cbn [parse_lit]. rewrite (trim_alpha (c :: r) Ha).
+  cbn [parse_lit]. rewrite (trim_nonspace (c :: r) (all_alpha_nonspace _ Ha)).
   pose proof Ha as Ha'. simpl in Ha'. apply andb_true_iff in Ha'. destruct Ha' as [Hc Hr].
   rewrite (alpha_neq c (ch "[") Hc eq_refl), (alpha_neq c (ch "(") Hc eq_refl).
   unfold parse_atom, word_is. rewrite Hs.
@@ -68,17 +98,258 @@ Proof.
   rewrite (alpha_neq c (ch ".") Hc eq_refl). reflexivity.
 Qed.
 
-Theorem literal_roundtrip_partial : forall v, lit_ok v = true -> eval_entry (render_lit v) = Ok (lit_val v).
+Lemma eval_word s : bare_word s = true -> eval_entry s = Ok (VStr s).
 Proof.
-  intros [z|m e|b| |s]; simpl; try discriminate.
+  intros H. unfold eval_entry, literal_eval. rewrite (parse_lit_word _ s H).
+  unfold bare_word in H.
+  apply andb_true_iff in H. destruct H as [H _]. apply andb_true_iff in H. destruct H as [H _].
+  apply andb_true_iff in H. destruct H as [Ha _].
+  destruct (list_ascii_of_string s) as [|c r] eqn:El; [discriminate|].
+  pose proof Ha as Ha'. simpl in Ha'. apply andb_true_iff in Ha'. destruct Ha' as [Hc Hr].
+  rewrite (alpha_neq c (ch "'") Hc eq_refl), (alpha_neq c """"%char Hc eq_refl).
+  rewrite andb_false_r.
+  rewrite !(all_alpha_no_char _ (c :: r)) by (assumption || reflexivity). reflexivity.
+Qed.
+
+(* ------------------------------------------------------------------------------------ decimal digits *)
+
+Fixpoint uchars (d : uint) : lstr :=
+  match d with
+  | Nil => []
+  | D0 d => "0"%char :: uchars d | D1 d => "1"%char :: uchars d | D2 d => "2"%char :: uchars d
+  | D3 d => "3"%char :: uchars d | D4 d => "4"%char :: uchars d | D5 d => "5"%char :: uchars d
+  | D6 d => "6"%char :: uchars d | D7 d => "7"%char :: uchars d | D8 d => "8"%char :: uchars d
+  | D9 d => "9"%char :: uchars d
+  end.
+
+Lemma uchars_string d : list_ascii_of_string (NilEmpty.string_of_uint d) = uchars d.
+Proof. induction d; simpl; f_equal; auto. Qed.
+
+Lemma uchars_digits d : all_digits (uchars d) = true.
+Proof. induction d; simpl; auto. Qed.
+
+Lemma digits_val_acc d : forall acc, digits_val (Zpos acc) (uchars d) = Zpos (Pos.of_uint_acc d acc).
+Proof.
+  induction d; intros acc; cbn [uchars digits_val Pos.of_uint_acc]; try reflexivity;
+    rewrite <- IHd; f_equal; change (Z.of_nat _) with 0%Z || idtac; simpl Z.of_nat; lia.
+Qed.
+
+Lemma digits_val_uint d : digits_val 0 (uchars d) = Z.of_N (Pos.of_uint d).
+Proof.
+  induction d; simpl; try reflexivity; try exact IHd; apply digits_val_acc.
+Qed.
+
+Lemma to_uint_head p : match Pos.to_uint p with Nil | D0 _ => False | _ => True end.
+Proof.
+  pose proof (Unsigned.to_of (Pos.to_uint p)) as H. rewrite Unsigned.of_to in H. simpl in H.
+  destruct (Pos.to_uint p) as [|d|d|d|d|d|d|d|d|d|d] eqn:E; auto.
+  - exact (Unsigned.to_uint_nonnil p E).
+  - rewrite unorm_D0 in H. unfold unorm in H.
+    destruct (nzhead d) eqn:En.
+    + (* the number would be zero *) inversion H; subst. exact (Unsigned.to_uint_nonzero p E).
+    + exact (nzhead_nonzero d _ (eq_trans En (eq_sym H))).
+    + discriminate. + discriminate. + discriminate. + discriminate. + discriminate.
+    + discriminate. + discriminate. + discriminate. + discriminate.
+Qed.
+
+(* the digits of a positive number: digits only, no leading zero, and they denote the number *)
+Definition pchars (p : positive) : lstr := uchars (Pos.to_uint p).
+
+Lemma pchars_ok p :
+  all_digits (pchars p) = true /\ int_digits_ok (pchars p) = true /\ digits_val 0 (pchars p) = Zpos p /\
+  exists c r, pchars p = c :: r /\ is_digit c = true.
+Proof.
+  unfold pchars. pose proof (to_uint_head p) as Hh.
+  pose proof (uchars_digits (Pos.to_uint p)) as Hd.
+  pose proof (digits_val_uint (Pos.to_uint p)) as Hv. rewrite Unsigned.of_to in Hv.
+  repeat split; auto.
+  - destruct (Pos.to_uint p); try contradiction; unfold int_digits_ok; rewrite Hd; reflexivity.
+  - destruct (Pos.to_uint p); try contradiction; simpl; eauto.
+Qed.
+
+(* magnitude of an integer *)
+Definition mchars (z : Z) : lstr := match z with Z0 => ["0"%char] | Zpos p | Zneg p => pchars p end.
+
+Lemma mchars_ok z :
+  all_digits (mchars z) = true /\ int_digits_ok (mchars z) = true /\ digits_val 0 (mchars z) = Z.abs z /\
+  exists c r, mchars z = c :: r /\ is_digit c = true.
+Proof.
+  destruct z; simpl; [repeat split; eauto | apply pchars_ok | apply pchars_ok].
+Qed.
+
+Definition zchars (z : Z) : lstr := match z with Zneg _ => "-"%char :: mchars z | _ => mchars z end.
+
+Lemma render_int_chars z : list_ascii_of_string (render_int z) = zchars z.
+Proof.
+  unfold render_int, zchars, mchars, pchars. destruct z as [|p|p]; simpl; [reflexivity| |].
+  - pose proof (to_uint_head p). destruct (Pos.to_uint p) eqn:E; try contradiction;
+      rewrite <- uchars_string; reflexivity.
+  - pose proof (to_uint_head p). destruct (Pos.to_uint p) eqn:E; try contradiction;
+      rewrite <- uchars_string; reflexivity.
+Qed.
+
+Lemma list_ascii_app a b : list_ascii_of_string (a ++ b)%string = list_ascii_of_string a ++ list_ascii_of_string b.
+Proof. induction a; simpl; f_equal; auto. Qed.
+
+(* ------------------------------------------------------------------------------------ parsing numbers *)
+
+Lemma span_all l : all_digits l = true -> span_digits l = (l, []).
+Proof.
+  induction l as [|c r IH]; simpl; auto. intros H. apply andb_true_iff in H. destruct H as [Hc Hr].
+  rewrite Hc, (IH Hr). reflexivity.
+Qed.
+
+Lemma span_app a x rest : all_digits a = true -> is_digit x = false -> span_digits (a ++ x :: rest) = (a, x :: rest).
+Proof.
+  intros Ha Hx. induction a as [|c r IH]; simpl.
+  - rewrite Hx. reflexivity.
+  - simpl in Ha. apply andb_true_iff in Ha. destruct Ha as [Hc Hr]. rewrite Hc, (IH Hr). reflexivity.
+Qed.
+
+Lemma parse_unsigned_int ds :
+  all_digits ds = true -> int_digits_ok ds = true -> parse_unsigned ds = Some (VInt (digits_val 0 ds)).
+Proof. intros Ha Hi. unfold parse_unsigned. rewrite (span_all ds Ha), Hi. reflexivity. Qed.
+
+Definition sign_chars (neg : bool) : lstr := if neg then ["-"%char] else [].
+
+Lemma strip_sign_digit c r : is_digit c = true -> strip_sign (c :: r) = (false, c :: r).
+Proof.
+  intros Hc. unfold strip_sign. rewrite (digit_neq c (ch "-") Hc eq_refl), (digit_neq c (ch "+") Hc eq_refl). reflexivity.
+Qed.
+
+Lemma parse_unsigned_exp ds neg es c r :
+  all_digits ds = true -> ds = c :: r -> all_digits es = true -> es <> [] ->
+  (exists c' r', es = c' :: r' /\ is_digit c' = true) ->
+  parse_unsigned (ds ++ "e"%char :: sign_chars neg ++ es) =
+  Some (VDec (digits_val 0 ds) (if neg then - digits_val 0 es else digits_val 0 es)).
+Proof.
+  intros Ha -> He Hne (c' & r' & -> & Hc').
+  unfold parse_unsigned. rewrite (span_app _ "e"%char _ Ha eq_refl).
+  change (aeq "e"%char (ch ".")) with false. cbv iota beta.
+  change (aeq "e"%char (ch "e")) with true. cbn [orb].
+  assert (Hs : strip_sign (sign_chars neg ++ c' :: r') = (neg, c' :: r')).
+  { destruct neg; simpl.
+    - reflexivity.
+    - apply strip_sign_digit; assumption. }
+  rewrite Hs. rewrite He. rewrite app_nil_r. cbn [List.length Z.of_nat]. rewrite !Z.sub_0_r. reflexivity.
+Qed.
+
+Lemma digit_head_atom c r :
+  is_digit c = true ->
+  parse_atom (c :: r) = match parse_unsigned (c :: r) with Some v => Some v | None => None end.
+Proof.
+  intros Hc. unfold parse_atom, word_is.
+  assert (W : forall w, is_digit (ch w) = false -> (string_of_list_ascii (c :: r) =? w)%string = false).
+  { intros w Hw. destruct w as [|c0 w']; [reflexivity|]. simpl in *.
+    pose proof (digit_neq c c0 Hc Hw) as N. unfold aeq in N. rewrite N. reflexivity. }
+  rewrite !W by reflexivity.
+  unfold parse_quoted. rewrite (digit_neq c (ch "'") Hc eq_refl), (digit_neq c """"%char Hc eq_refl). cbn [orb].
+  unfold strip_sign. rewrite (digit_neq c (ch "-") Hc eq_refl), (digit_neq c (ch "+") Hc eq_refl). cbn [orb].
+  reflexivity.
+Qed.
+
+Lemma minus_head_atom c r :
+  is_digit c = true ->
+  parse_atom ("-"%char :: c :: r) = match parse_unsigned (c :: r) with Some v => Some (negate v) | None => None end.
+Proof.
+  intros Hc. unfold parse_atom, word_is. cbn [string_of_list_ascii String.eqb Ascii.eqb Bool.eqb andb].
+  cbv iota. cbn [parse_quoted aeq ch Ascii.eqb Bool.eqb andb orb strip_sign].
+  cbv iota. cbn [ltrim]. rewrite (digit_not_space c Hc). reflexivity.
+Qed.
+
+Lemma parse_atom_zchars z tail v :
+  (forall ms, (exists c r, ms = c :: r /\ is_digit c = true) -> all_digits ms = true ->
+     int_digits_ok ms = true -> parse_unsigned (ms ++ tail) = Some (v (digits_val 0 ms))) ->
+  (forall x, negate (v x) = v (- x)%Z) -> (z = 0%Z -> True) ->
+  parse_atom (zchars z ++ tail) = Some (v z) \/ False.
+Proof.
+  intros Hp Hn _. left.
+  destruct (mchars_ok z) as (Ha & Hi & Hv & c & r & Em & Hc).
+  unfold zchars. destruct z as [|p|p].
+  - rewrite Em in *. simpl app. rewrite (digit_head_atom c _ Hc).
+    change (c :: r ++ tail) with ((c :: r) ++ tail). rewrite Hp by eauto. rewrite Hv. reflexivity.
+  - rewrite Em in *. simpl app. rewrite (digit_head_atom c _ Hc).
+    change (c :: r ++ tail) with ((c :: r) ++ tail). rewrite Hp by eauto. rewrite Hv. reflexivity.
+  - rewrite Em in *. simpl app. rewrite (minus_head_atom c _ Hc).
+    change (c :: r ++ tail) with ((c :: r) ++ tail). rewrite Hp by eauto. rewrite Hv, Hn. reflexivity.
+Qed.
+
+Lemma zchars_shape z : exists c r, zchars z = c :: r /\ (is_digit c = true \/ c = "-"%char) /\ nonspace (zchars z) = true.
+Proof.
+  destruct (mchars_ok z) as (Ha & _ & _ & c & r & Em & Hc).
+  pose proof (all_digits_nonspace _ Ha) as Hn.
+  unfold zchars. destruct z; rewrite Em in *; simpl; eauto 8.
+Qed.
+
+Lemma parse_lit_atom fuel c r :
+  nonspace (c :: r) = true -> (is_digit c = true \/ c = "-"%char) ->
+  parse_lit (S fuel) (c :: r) = parse_atom (c :: r).
+Proof.
+  intros Hn Hc. cbn [parse_lit]. rewrite (trim_nonspace _ Hn).
+  destruct Hc as [Hc| ->].
+  - rewrite (digit_neq c (ch "[") Hc eq_refl), (digit_neq c (ch "(") Hc eq_refl). reflexivity.
+  - reflexivity.
+Qed.
+
+(* fuel-generic cores (also used for the elements of sequences, Proofs/KeysSeq.v) *)
+Lemma parse_lit_int f z : parse_lit (S f) (list_ascii_of_string (render_int z)) = Some (VInt z).
+Proof.
+  rewrite render_int_chars.
+  destruct (zchars_shape z) as (c & r & E & Hc & Hn).
+  rewrite E in *. rewrite (parse_lit_atom _ c r Hn Hc). rewrite <- E.
+  destruct (parse_atom_zchars z [] VInt) as [H|[]]; auto.
+  - intros ms _ Ha Hi. rewrite app_nil_r. apply parse_unsigned_int; assumption.
+  - rewrite app_nil_r in H. exact H.
+Qed.
+
+Lemma parse_lit_dec f m e :
+  parse_lit (S f) (list_ascii_of_string (render_int m ++ "e" ++ render_int e)%string) = Some (VDec m e).
+Proof.
+  rewrite !list_ascii_app, !render_int_chars.
+  change (list_ascii_of_string "e") with ["e"%char].
+  destruct (zchars_shape m) as (c & r & E & Hc & Hn).
+  destruct (zchars_shape e) as (ce & re & Ee & Hce & Hne).
+  assert (Hall : nonspace (zchars m ++ ["e"%char] ++ zchars e) = true).
+  { apply nonspace_app; [assumption|]. apply nonspace_app; [reflexivity|assumption]. }
+  remember (zchars m ++ ["e"%char] ++ zchars e) as l eqn:El.
+  assert (Hl : exists r', l = c :: r') by (subst l; rewrite E; simpl; eauto).
+  destruct Hl as [r' Er]. rewrite Er in Hall |- *.
+  rewrite (parse_lit_atom _ c r' Hall Hc). rewrite <- Er, El.
+  destruct (mchars_ok e) as (Hae & _ & Hve & c2 & r2 & Eme & Hc2).
+  destruct (parse_atom_zchars m (["e"%char] ++ zchars e) (fun x => VDec x e)) as [H|[]]; auto.
+  intros ms (c1 & r1 & -> & Hc1) Ha _.
+  assert (Hz : zchars e = sign_chars (match e with Zneg _ => true | _ => false end) ++ mchars e)
+    by (destruct e; reflexivity).
+  rewrite Hz. set (ng := match e with Zneg _ => true | _ => false end).
+  change ((c1 :: r1) ++ ["e"%char] ++ sign_chars ng ++ mchars e)
+    with ((c1 :: r1) ++ "e"%char :: sign_chars ng ++ mchars e).
+  rewrite (parse_unsigned_exp (c1 :: r1) ng (mchars e) c1 r1); eauto.
+  + rewrite Hve. subst ng. destruct e; simpl; reflexivity.
+  + rewrite Eme. discriminate.
+Qed.
+
+Lemma eval_of_parse s v :
+  parse_lit (S (List.length (list_ascii_of_string s))) (list_ascii_of_string s) = Some v -> eval_entry s = Ok v.
+Proof. intros H. unfold eval_entry, literal_eval. rewrite H. reflexivity. Qed.
+
+Lemma eval_int z : eval_entry (render_int z) = Ok (VInt z).
+Proof. apply eval_of_parse, parse_lit_int. Qed.
+
+Lemma eval_dec m e : eval_entry (render_int m ++ "e" ++ render_int e)%string = Ok (VDec m e).
+Proof. apply eval_of_parse, parse_lit_dec. Qed.
+
+(* the characters of a rendered number *)
+Lemma zchars_nonspace z : nonspace (zchars z) = true.
+Proof. destruct (zchars_shape z) as (_ & _ & _ & _ & H). exact H. Qed.
+
+(* ------------------------------------------------------------------------------------ the round trip *)
+
+Theorem literal_roundtrip : forall v, lit_wf v = true -> eval_entry (render_lit v) = Ok (lit_val v).
+Proof.
+  intros [z|m e|b| |s]; simpl.
+  - intros _. apply eval_int.
+  - intros _. apply eval_dec.
   - intros _. destruct b; vm_compute; reflexivity.
-  - intros H. unfold eval_entry, literal_eval. rewrite (parse_lit_word _ s H).
-    unfold bare_word in H.
-    apply andb_true_iff in H. destruct H as [H _]. apply andb_true_iff in H. destruct H as [H _].
-    apply andb_true_iff in H. destruct H as [Ha _].
-    destruct (list_ascii_of_string s) as [|c r] eqn:El; [discriminate|].
-    pose proof Ha as Ha'. simpl in Ha'. apply andb_true_iff in Ha'. destruct Ha' as [Hc Hr].
-    rewrite (alpha_neq c (ch "'") Hc eq_refl), (alpha_neq c """"%char Hc eq_refl).
-    rewrite andb_false_r.
-    rewrite !(all_alpha_no_char _ (c :: r)) by (assumption || reflexivity). reflexivity.
+  - intros _. vm_compute. reflexivity.
+  - apply eval_word.
 Qed.
